@@ -355,9 +355,6 @@ func FuzzVerifC12Binary(f *testing.F) {
 		if derr != nil {
 			return
 		}
-		if vC12LoneQuoteField(q.(*point).fields) {
-			return // known finding shape (empty field key with a lone quote as value)
-		}
 		if e := vC12ExerciseDecoded(q); e != nil {
 			t.Fatalf("%s NewPointFromBytes(%q) accepted: %s", verifkit.Sig(e.sig), orig, e.msg)
 		}
